@@ -1,0 +1,92 @@
+//go:build verif
+
+// Verification hooks for the management property (add-only; compiled only with -tags verif).
+// A recording transport with caller-chosen URIs/scope/MTU, construction of face-table entries on it
+// without goroutines or sockets, a synchronous guarded call of the real sendPacket (liveness probe),
+// and a reset of the global face table between histories. No behaviour of the package is changed.
+
+package face
+
+import (
+	"fmt"
+
+	defn "github.com/named-data/ndnd/fw/defn"
+	"github.com/named-data/ndnd/fw/dispatch"
+)
+
+// VerifMgmtTransport records the frames handed to sendFrame. Like the socket transports it refuses
+// frames larger than the MTU (counted in Dropped).
+type VerifMgmtTransport struct {
+	transportBase
+	Frames  [][]byte
+	Dropped int
+}
+
+func (t *VerifMgmtTransport) String() string {
+	return fmt.Sprintf("VerifMgmtTransport, FaceID=%d", t.faceID)
+}
+
+// SetPersistency accepts every persistency (the management module validates before calling).
+func (t *VerifMgmtTransport) SetPersistency(p Persistency) bool {
+	t.persistency = p
+	return true
+}
+func (t *VerifMgmtTransport) GetSendQueueSize() uint64 { return 0 }
+func (t *VerifMgmtTransport) runReceive()               {}
+func (t *VerifMgmtTransport) Close()                    { t.running.Store(false) }
+
+func (t *VerifMgmtTransport) sendFrame(frame []byte) {
+	if len(frame) > t.MTU() {
+		t.Dropped++
+		return
+	}
+	c := make([]byte, len(frame))
+	copy(c, frame)
+	t.nOutBytes += uint64(len(frame))
+	t.Frames = append(t.Frames, c)
+}
+
+// VerifMgmtAddFace puts a face on a recording transport into the global face table (as Run would, but
+// without starting goroutines). ndnlp selects NDNLPLinkService (default options) or NullLinkService.
+func VerifMgmtAddFace(remote, local *defn.URI, scope defn.Scope, linkType defn.LinkType,
+	persistency Persistency, mtu int, ndnlp bool) (LinkService, *VerifMgmtTransport) {
+	t := &VerifMgmtTransport{}
+	t.makeTransportBase(remote, local, persistency, scope, linkType, mtu)
+	t.running.Store(true)
+	var l LinkService
+	if ndnlp {
+		l = MakeNDNLPLinkService(t, MakeNDNLPLinkServiceOptions())
+	} else {
+		l = MakeNullLinkService(t)
+	}
+	FaceTable.Add(l)
+	return l, t
+}
+
+// VerifMgmtSend calls the real sendPacket synchronously on an NDNLP face and reports a panic
+// (which in the running daemon would happen on the face's send goroutine and end the process).
+func VerifMgmtSend(l LinkService, out dispatch.OutPkt) (panicked any) {
+	defer func() { panicked = recover() }()
+	if n, ok := l.(*NDNLPLinkService); ok {
+		sendPacket(n, out)
+	}
+	return nil
+}
+
+// VerifMgmtHeaderOverhead returns the link service's current header overhead (0 for a non-NDNLP face).
+func VerifMgmtHeaderOverhead(l LinkService) int {
+	if n, ok := l.(*NDNLPLinkService); ok {
+		return n.headerOverhead
+	}
+	return 0
+}
+
+// VerifMgmtResetFaceTable empties the global face table and restarts face numbering at 1.
+func VerifMgmtResetFaceTable() {
+	FaceTable.faces.Range(func(k, _ interface{}) bool {
+		FaceTable.faces.Delete(k)
+		dispatch.RemoveFace(k.(uint64))
+		return true
+	})
+	FaceTable.nextFaceID.Store(1)
+}
